@@ -242,11 +242,13 @@ class AddInitializersToInputsPass(ir.passes.InPlacePass):
 
     def call(self, model: ir.Model) -> ir.passes.PassResult:
         count = 0
-        for graph in model.graphs():
-            inputs_set = set(graph.inputs)
-            for initializer in graph.initializers.values():
-                if initializer not in inputs_set:
-                    graph.inputs.append(initializer)
-                    count += 1
+        # Only the main graph: the inputs of a subgraph are fixed by the operator that
+        # owns it (an If branch has none, a Loop/Scan body has a prescribed list)
+        graph = model.graph
+        inputs_set = set(graph.inputs)
+        for initializer in graph.initializers.values():
+            if initializer not in inputs_set:
+                graph.inputs.append(initializer)
+                count += 1
         logger.info("Added %s initializers to graph inputs", count)
         return ir.passes.PassResult(model, modified=bool(count))
